@@ -100,6 +100,18 @@ def module_value_reads(repo):
                 if d:
                     dropped_r[q] = d
     repo._dropped_reads = dropped_r
+    memos = {}
+    for m, tree in repo.modules.items():
+        for q, body, i, fn in canon.outer_functions(tree, m):
+            if q in ref and q not in repo.changed:
+                continue                # as confirmed
+            d = canon.incomplete_memos(fn)
+            if d and q in ref:
+                was = {(t, k, p_) for t, k, p_ in canon.incomplete_memos(ast.parse(ref[q]["src"]).body[0])}
+                d = [x for x in d if x not in was]
+            if d:
+                memos[q] = d
+    repo._incomplete_memos = memos
     return out
 
 
@@ -162,6 +174,17 @@ def new_guard_rule(ctx, prop):
         for nm in names:
             n += 1
             ctx.bad(rid5, q0, "the result still depends on everything the confirmed function made it depend on", f"`.{nm}` is no longer read", key_detail=f"dropped read {nm}")
+    rid6 = f"R{prop[1:]}u"
+    ctx.rule(rid6, "a result that an anchored class newly remembers between calls is keyed on every parameter the computation reads (generic rule; positive evidence, not gated)",
+             kind="N")
+    for q, items in sorted((getattr(ctx.repo, "_incomplete_memos", None) or {}).items()):
+        q0 = q.split("#")[0]
+        if not (any(c == q0 or c.startswith(q0 + ".") or c.startswith(q0 + "->") for c in anchored) or q0.rsplit(".", 1)[0] in classes):
+            continue
+        for table, key, p_ in items:
+            n += 1
+            ctx.bad(rid6, q0, "a remembered result is only reused for a call that would compute the same thing",
+                    f"`{table}[{key}]` is reused whatever the value of parameter `{p_}`, which the computation reads", key_detail=f"memo {table} misses {p_}"[:80], pointed=True)
     return n
 
 
